@@ -42,6 +42,7 @@ func (idx *hintFileIndex) get(keyhash uint64, key string) (item *HintItem, err e
 	}
 	reader.fd.Seek(offset, 0)
 	reader.rbuf.Reset(reader.fd)
+	reader.offset = offset
 	defer reader.fd.Close()
 	var it *HintItem
 	for {
